@@ -200,6 +200,10 @@ inductive SOp
   /-- connection `c` is reported CLOSING: `disconnect` runs up to its suspension (the CLOSED notification is
   `tree (.closed c)`) -/
   | closeBegin (c : ConnId)
+  /-- `settings.credentials.username := n` while the session lasts (the login name stored for the NEXT login, a mutable
+  pydantic setting). None of the handlers reads it: "own" is `_session.user.name` (distributed.py:423-429, 518-520,
+  532-533; search/manager.py own-name filters) -/
+  | credentials (n : Name)
 deriving Repr
 
 structure SState where
@@ -212,8 +216,10 @@ structure SState where
   closing : List ConnId := []
   /-- per received carrier, everything that was written for it -/
   sent : List (Req × List Out) := []
+  /-- `settings.credentials.username` when it was assigned during the history (`none`: as at login) -/
+  configured : Option Name := none
 
-def SState.init : SState := ⟨Dist.init, [], [], [], []⟩
+def SState.init : SState := ⟨Dist.init, [], [], [], [], none⟩
 
 /-- adds in progress after the tree state moved to `d'`: those whose connection is still registered -/
 def stillAdding (adding : List ConnId) (d' : DState) : List ConnId := adding.filter (fun c => decide (c ∈ d'.live))
@@ -234,6 +240,7 @@ def stepS (env : Env) (st : SState) : SOp → SState
               closing := stillAdding st.closing d' }
   | .addEnd c => { st with adding := st.adding.erase c }
   | .closeBegin c => if c ∈ st.d.live ∧ c ∉ st.closing then { st with closing := st.closing ++ [c] } else st
+  | .credentials n => { st with configured := some n }
 
 def runS (env : Env) (h : List SOp) : SState := h.foldl (stepS env) SState.init
 
@@ -244,6 +251,7 @@ def treeOps : List SOp → List Op
   | .addBegin n :: h => .initialized n false :: treeOps h
   | .addEnd _ :: h => treeOps h
   | .closeBegin _ :: h => treeOps h
+  | .credentials _ :: h => treeOps h
 
 /-! ### the wire form of a connection that came through an obfuscated port
 
